@@ -137,6 +137,12 @@ func (w *c03World) body(i int, c flamego.Context) (ret string) {
 		case 'C':
 			w.trace = append(w.trace, c03Ev{K: 'C', I: i})
 			w.cancel()
+		case 'D':
+			// the request goes on under a context whose deadline has passed: done, as after a cancel
+			w.trace = append(w.trace, c03Ev{K: 'C', I: i})
+			ctx, cancel := gocontext.WithDeadline(c.Request().Context(), time.Unix(1, 0))
+			c.Request().Request = c.Request().Request.WithContext(ctx)
+			_ = cancel
 		case 'T':
 			w.trace = append(w.trace, c03Ev{K: 'T', I: i})
 			ctx, cancel := gocontext.WithCancel(c.Request().Context())
@@ -620,7 +626,7 @@ func c03Shapes(maxN int, thorough bool) []c03Shape {
 }
 
 func c03Run(r *core.Run) {
-	r.Rule = "engine E: every handler program = stack shape (app middleware / nested group handlers / route handlers / optional action; handler types func(Context), func(Context) string, func(ResponseWriter, *Request), http.HandlerFunc, func(Context, *Request), func(Context) error and func() error returning nil) x one behaviour per position (action string over {Next, write, cancel, install a derived context, Next guarded by the handler's own recover} + terminal {return nothing, return \"\", return a string, panic}); each program is one request on a real Flame; stack variants: installed late, swapped by Handlers(), flat groups, AutoHead, informational statuses, a HandlerWrapper, Routes with several method strings, handler-less nested groups, closed nested groups with a handler of their own, refused Use/Get/Action calls (non-callable argument, recovered) around the accepted ones, a sibling route registered on a prefix of the probed route's handler slice and served before every probe; the recorded event trace must be accepted by the trace automaton (chain order, at most once, none skipped, onion nesting, automatic advance iff nothing written and not cancelled, Next() completeness) and the response must equal what the trace implies; non-trivial = program with at least one Next() and at least one write/cancel/panic/returned string"
+	r.Rule = "engine E: every handler program = stack shape (app middleware / nested group handlers / route handlers / optional action; handler types func(Context), func(Context) string, func(ResponseWriter, *Request), http.HandlerFunc, func(Context, *Request), func(Context) error and func() error returning nil) x one behaviour per position (action string over {Next, write, cancel, install a derived context, install a context past its deadline, Next guarded by the handler's own recover} + terminal {return nothing, return \"\", return a string, panic}); each program is one request on a real Flame; stack variants: installed late, swapped by Handlers(), flat groups, AutoHead, informational statuses, a HandlerWrapper, Routes with several method strings, handler-less nested groups, closed nested groups with a handler of their own, refused Use/Get/Action calls (non-callable argument, recovered) around the accepted ones, a sibling route registered on a prefix of the probed route's handler slice and served before every probe; the recorded event trace must be accepted by the trace automaton (chain order, at most once, none skipped, onion nesting, automatic advance iff nothing written and not cancelled, Next() completeness) and the response must equal what the trace implies; non-trivial = program with at least one Next() and at least one write/cancel/panic/returned string"
 	r.Assumptions = []string{"an explicit Next() after a write or after a cancel may start the next handler or not (the statement leaves it open); everything else is exact", "no Recovery in the stack (C15 covers it)"}
 	type plan struct {
 		minN, maxN int
@@ -630,15 +636,15 @@ func c03Run(r *core.Run) {
 	}
 	var plans []plan
 	red := []c03Beh{}
-	for _, a := range []string{"", "N", "W", "NN", "C", "T", "TC", "G"} {
+	for _, a := range []string{"", "N", "W", "NN", "C", "T", "TC", "G", "D"} {
 		for _, t := range []int{0, 2, 3} {
 			red = append(red, c03Beh{a, t})
 		}
 	}
 	if r.Thorough() {
 		r.SetBudget(35 * time.Minute)
-		rich := c03Behaviours(3, "T", "TC", "TN", "NT", "TCN", "TNC", "CT", "TW", "TT", "TTC", "G", "GN", "GW")
-		mid := c03Behaviours(2, "T", "TC", "TN", "NT", "TCN", "TNC", "CT", "TW", "TT", "TTC", "G", "GN", "GW")
+		rich := c03Behaviours(3, "T", "TC", "TN", "NT", "TCN", "TNC", "CT", "TW", "TT", "TTC", "G", "GN", "GW", "D", "DN", "ND")
+		mid := c03Behaviours(2, "T", "TC", "TN", "NT", "TCN", "TNC", "CT", "TW", "TT", "TTC", "G", "GN", "GW", "D", "DN")
 		plans = []plan{
 			{1, 3, mid, "<=3 positions, every shape and variant, action strings <=2 over {N,W,C} plus ten context-installing ones", 0},
 			{1, 2, rich, "<=2 positions, every shape and variant, action strings <=3", 0},
@@ -650,12 +656,12 @@ func c03Run(r *core.Run) {
 	} else {
 		r.SetBudget(70 * time.Second)
 		mid := []c03Beh{}
-		for _, a := range []string{"", "N", "W", "C", "NN", "NW", "WN", "NC", "T", "TC", "G"} {
+		for _, a := range []string{"", "N", "W", "C", "NN", "NW", "WN", "NC", "T", "TC", "G", "D"} {
 			for _, t := range []int{0, 2, 3} {
 				mid = append(mid, c03Beh{a, t})
 			}
 		}
-		plans = []plan{{1, 3, c03Behaviours(2, "T", "TC", "TN", "TCN", "G", "GN"), "<=3 positions, base shapes, action strings <=2 over {N,W,C} plus T, TC, TN, TCN, G, GN (G = Next() guarded by a recover of the handler)", 1},
+		plans = []plan{{1, 3, c03Behaviours(2, "T", "TC", "TN", "TCN", "G", "GN", "D"), "<=3 positions, base shapes, action strings <=2 over {N,W,C} plus T, TC, TN, TCN, G, GN, D (G = Next() guarded by a recover of the handler, D = install a context whose deadline has passed)", 1},
 			{1, 3, mid, "<=3 positions, variant shapes, actions {'',N,W,C,NN,NW,WN,NC,T,TC} x {nothing,string,panic}", 2},
 			{4, 4, red, "4 positions, actions {'',N,W,NN,C,T,TC} x {nothing,string,panic}", 0}}
 	}
